@@ -18,6 +18,7 @@
 #include "dbgroup/random/zipf.hpp"
 
 // C++ standard libraries
+#include <algorithm>
 #include <cmath>
 #include <cstddef>
 #include <cstdint>
@@ -138,9 +139,10 @@ ApproxZipfDistribution<IntType>::UpdateCDF()
     }
     while (i < n_ + 1) {  // compute approximate values
       const auto low = 1.0 / pow(i, alpha_);
-      i += kSkipSize;
+      const auto skip = std::min<size_t>(kSkipSize, n_ + 1 - i);  // do not go beyond the last bin
+      i += skip;
       const auto high = 1.0 / pow(i, alpha_);
-      base_prob += (low + high) * kSkipSize / 2;
+      base_prob += (low + high) * skip / 2;
     }
     base_prob = 1.0 / base_prob;
 
